@@ -163,4 +163,56 @@ pub fn run(out: &mut Out, thorough: bool, seed: u64, _extra: &[String]) {
         }
         let _ = (plain_of(&[1]), rand_msg(&mut r, 2, 3));
     }
+    large_degrees(out, &mut r, thorough);
+}
+
+/// Large degrees (far above the line-by-line range; the Galois tables use 32-bit bit reversal and u32 index arithmetic): row rotations with
+/// NAF-composed default keys, with a directly generated key, the column swap, CKKS rotation and conjugation — decided on the decoded slots
+/// inside the harness.  Degree 2^17 once for the slot-level automorphism on plaintexts is C11's `batch_high`; here the ciphertext path.
+fn large_degrees(out: &mut Out, r: &mut Rng, thorough: bool) {
+    let ks: Vec<usize> = if thorough { vec![10, 12, 13, 15, 17] } else { vec![13, *r.pick(&[9usize, 11, 15])] };
+    for lg in ks {
+        let n = 1usize << lg; let row = n / 2;
+        let qs = match pick_primes(r, n, &[55, 55, 60]) { Some(v) => v, None => continue };
+        for scheme in [SchemeType::BFV, SchemeType::BGV, SchemeType::CKKS] {
+            let t = if scheme == SchemeType::CKKS { 0 } else { match std::panic::catch_unwind(|| hu::get_primes(2 * n as u64, 20, 1)[0].value()) { Ok(t) => t, Err(_) => continue } };
+            let s = match make(scheme, n, &qs, t, true, None) { Some(s) => s, None => continue };
+            let cls = format!("large-n2^{}-{}", lg, scheme_name(scheme));
+            // steps: 1, -1, a NAF-composed step without its own key, the largest steps of both signs
+            let steps: Vec<isize> = vec![1, -1, 13, -13, -11, row as isize - 1, -(row as isize) + 1, (row / 2) as isize + 3];
+            let res = std::panic::catch_unwind(std::panic::AssertUnwindSafe(|| -> Option<String> {
+                let all_keys = s.keygen.create_galois_keys(false);
+                if scheme == SchemeType::CKKS {
+                    let enc = CKKSEncoder::new(s.ctx.clone());
+                    let vals: Vec<num_complex::Complex64> = (0..row).map(|i| num_complex::Complex64::new((i % 97) as f64 / 8.0 - 3.0, (i % 31) as f64 / 16.0)).collect();
+                    let ct = s.encryptor.encrypt_new(&enc.encode_c64_array_new(&vals, None, 2f64.powi(40)));
+                    for &st in &steps {
+                        let d = enc.decode_new(&s.decryptor.decrypt_new(&s.evaluator.rotate_vector_new(&ct, st, &all_keys)));
+                        let sh = ((st % row as isize) + row as isize) as usize % row;
+                        if let Some(i) = (0..row).find(|&i| (d[i] - vals[(i + sh) % row]).norm() > 1e-2) { return Some(format!("rotate_vector step={} slot {} is {} instead of {}", st, i, d[i], vals[(i + sh) % row])); }
+                    }
+                    let d = enc.decode_new(&s.decryptor.decrypt_new(&s.evaluator.complex_conjugate_new(&ct, &all_keys)));
+                    if let Some(i) = (0..row).find(|&i| (d[i] - vals[i].conj()).norm() > 1e-2) { return Some(format!("complex_conjugate slot {} wrong", i)); }
+                    return None;
+                }
+                let benc = BatchEncoder::new(s.ctx.clone());
+                if !benc.simd_encoding_supported() { return Some("batching prime not accepted".into()); }
+                let slots: Vec<u64> = (0..n).map(|i| (i as u64 * 2654435761 + 12345) % t).collect();
+                let ct = s.encryptor.encrypt_new(&benc.encode_new(&slots));
+                for &st in &steps {
+                    let direct = s.keygen.create_galois_keys_from_steps(&[st], false);
+                    for (nm, keys) in [("naf", &all_keys), ("direct", &direct)] {
+                        let d = benc.decode_new(&s.decryptor.decrypt_new(&s.evaluator.rotate_rows_new(&ct, st, keys)));
+                        if d != rot_rows(&slots, st) { return Some(format!("rotate_rows step={} keys={} decoded matrix is not rotated left by step", st, nm)); }
+                    }
+                }
+                if benc.decode_new(&s.decryptor.decrypt_new(&s.evaluator.rotate_columns_new(&ct, &all_keys))) != swap_rows(&slots) { return Some("rotate_columns rows not swapped".into()); }
+                None }));
+            match res {
+                Ok(None) => out.raw(&format!("!OK rotate_large {} # {}", cls, cls)),
+                Ok(Some(w)) => out.raw(&format!("!FAIL rotate_large {} :: {} # {}", cls, w, cls)),
+                Err(_) => { let m = LAST_PANIC.with(|p| p.borrow().clone()); out.raw(&format!("!FAIL rotate_large {} :: panicked: {} # {}", cls, m.replace('\n', " "), cls)); }
+            }
+        }
+    }
 }
